@@ -201,7 +201,8 @@ def _check_diagrams_once(case, ctx, user_arrays, pristine, pass_no):
 @st.composite
 def s_matching(draw):
     fam = draw(diagram_family(count=2, min_size=0, max_size=6, allow_diag=True, scales=False, modes=("lattice", "float"), allow_neg=False))
-    return {"fam": fam, "kind": draw(st.sampled_from(["b", "w"])), "axes": draw(st.sampled_from(["current", "given_current", "given_not_current", "given_not_current"]))}
+    return {"fam": fam, "kind": draw(st.sampled_from(["b", "w"])), "axes": draw(st.sampled_from(["current", "given_current", "given_not_current", "given_not_current"])),
+            "dtype": draw(st.sampled_from(["float64", "float64", "uint8", "int16"])), "mult": draw(st.sampled_from([1, 15]))}
 
 
 def seg_key(p, q):
@@ -214,8 +215,17 @@ def check_matching(case, ctx):
     A, B = fam["dgms"]
     if not A and not B:
         ctx.skip("both diagrams empty (nothing to plot)")
-    a = np.array(A, dtype=float).reshape(-1, 2)
-    b = np.array(B, dtype=float).reshape(-1, 2)
+    dt = np.float64
+    mult = case.get("mult", 1)
+    flat = [x * mult for p in A + B for x in p]
+    if case.get("dtype") in ("uint8", "int16") and all(float(x).is_integer() for x in flat) and min(flat) >= 0 and max(flat) <= (255 if case["dtype"] == "uint8" else 32767):
+        # the same (integer) values stored in a narrow integer array: b + d may exceed the range of that dtype
+        dt = getattr(np, case["dtype"])
+        A = [[p[0] * mult, p[1] * mult] for p in A]
+        B = [[p[0] * mult, p[1] * mult] for p in B]
+        ctx.label("dtype:" + case["dtype"])
+    a = np.array(A, dtype=dt).reshape(-1, 2)
+    b = np.array(B, dtype=dt).reshape(-1, 2)
     dist_fn = bottleneck if case["kind"] == "b" else wasserstein
     plot_fn = bottleneck_matching if case["kind"] == "b" else wasserstein_matching
     _, match = ctx.call(dist_fn, a, b, matching=True)
